@@ -142,18 +142,12 @@ fn direct<D, E1: std::fmt::Display, E2: std::fmt::Display>(mut de: D, value: imp
     Ok(v.0)
 }
 
-thread_local! {
-    static TICK: std::cell::Cell<u32> = std::cell::Cell::new(0);
-}
-
-/// every 8th document is preceded, on the same thread and through every path, by a refused one
-/// (the same document cut short, and with a stray byte): a rejection must leave nothing behind
+/// one document in 8 (chosen by its bytes, so that a replay chooses alike) is preceded, on the
+/// same thread and through every path, by a refused one (the same document cut short, and with
+/// a stray byte): a rejection must leave nothing behind
 fn refused_first(json: bool, doc: &[u8]) {
-    let n = TICK.with(|t| {
-        t.set(t.get().wrapping_add(1));
-        t.get()
-    });
-    if n % 8 != 0 || doc.len() < 2 {
+    let h = doc.iter().fold(0xcbf29ce484222325u64, |h, b| (h ^ *b as u64).wrapping_mul(0x100000001b3));
+    if h % 8 != 0 || doc.len() < 2 {
         return;
     }
     let cut = &doc[..doc.len() - 1];
